@@ -508,11 +508,17 @@ def _collect(x, log=None):
         r = x.future.result()
         if log is not None:
             log.add('result.ret', label=x.label, outcome='success')
-        return ('success', r)
+        first = ('success', r)
     except BaseException as e:  # noqa
         if log is not None:
             log.add('result.ret', label=x.label, outcome='raised', exc=repr(e))
-        return ('raised', e)
+        first = ('raised', e)
+    # the outcome is asked for once more (the future is done: this cannot block): it is the same outcome every time
+    try:
+        x.second_outcome = ('success', x.future.result())
+    except BaseException as e:  # noqa
+        x.second_outcome = ('raised', e)
+    return first
 
 
 def _await(obs, is_done, what, wall=None):
